@@ -160,16 +160,51 @@ def run(prog, rep):
                 continue
             n2 += 1
             rep.touch(f)
-            a1 = [x for x in f.walk(n['c'][2]) if x['k'] == 'DeclRefExpr']
-            a2 = [x for x in f.walk(n['c'][3]) if x['k'] == 'DeclRefExpr']
-            sz = [x.get('cv') for x in f.walk(n['c'][3]) if x['k'] == 'UnaryExprOrTypeTraitExpr']
-            m = re.search(r'char\s*\[(\d+)\]', f.type(a1[0])) if a1 else None
-            if a1 and a2 and a1[0].get('d') == a2[0].get('d') and m and sz and sz[0] == int(m.group(1)):
-                rep.ok('R14.2', '%s|PrintIsoUtc(buf, buf + sizeof(buf))|%s' % (f.id.split('|')[0][-60:], f.loc(n)))
+            p1, p2 = ptr_off(f, n['c'][2]), ptr_off(f, n['c'][3])
+            if p1 is not None and p2 is not None and p1[0] == p2[0] and p1[1] == 0 and p1[2] is not None and 0 < p2[1] <= p1[2]:
+                rep.ok('R14.2', '%s|PrintIsoUtc(buf, buf + %d) of char[%d]|%s' % (f.id.split('|')[0][-60:], p2[1], p1[2], f.loc(n)))
             else:
-                rep.finding('R14.2', 'PrintIsoUtc caller|buffer', f.loc(n), 'PrintIsoUtc is not called with (buf, buf + sizeof(buf)) of one local array', func=f.id)
+                rep.finding('R14.2', 'PrintIsoUtc caller|buffer', f.loc(n), 'PrintIsoUtc is not called with the begin of one local char array and an end inside it '
+                            '(begin = %s, end = %s as (array, offset, length))' % (p1, p2), func=f.id)
     if n2 < 2:
         raise AnalysisBroken('R14.2: callers of PrintIsoUtc not found')
+
+
+def ptr_off(f, e, depth=0):
+    """(array decl, element offset, array length) of a pointer expression into a local char array, or None"""
+    from bsv.expr import resolve
+    from bsv.facts import strip
+    e = resolve(f, e)
+    if e is None or depth > 6:
+        return None
+    k = e['k']
+    if k == 'DeclRefExpr':
+        m = re.search(r'char\s*\[(\d+)\]', f.type(e))
+        if m:
+            return (e.get('d'), 0, int(m.group(1)))
+        return None
+    if k == 'BinaryOperator' and e.get('op') in ('+', '-'):
+        for a, b in ((e['c'][0], e['c'][1]), (e['c'][1], e['c'][0])):
+            pa = ptr_off(f, a, depth + 1)
+            cb = strip(b)
+            if pa is not None and cb is not None and 'cv' in cb:
+                if e['op'] == '-' and a is not e['c'][0]:
+                    return None
+                return (pa[0], pa[1] + (cb['cv'] if e['op'] == '+' else -cb['cv']), pa[2])
+        return None
+    if k == 'CallExpr' and (f.callee(e) or {}).get('q') in ('std::end', 'std::cend', 'std::begin', 'std::cbegin', 'std::data') and len(e['c']) == 2:
+        pa = ptr_off(f, e['c'][1], depth + 1)
+        if pa is None:
+            return None
+        return (pa[0], pa[2] if f.callee(e)['n'] in ('end', 'cend') else 0, pa[2])
+    if k == 'UnaryOperator' and e.get('op') == '&':
+        sub = strip(e['c'][0])
+        if sub is not None and sub['k'] == 'ArraySubscriptExpr':
+            pa = ptr_off(f, sub['c'][0], depth + 1)
+            ix = strip(sub['c'][1])
+            if pa is not None and ix is not None and 'cv' in ix:
+                return (pa[0], pa[1] + ix['cv'], pa[2])
+    return None
 
 
 def check_floor_bias(prog, rep):
